@@ -73,6 +73,7 @@ import sysconfig  # noqa: E402
 import types     # noqa: E402
 import array as pyarray  # noqa: E402
 import math      # noqa: E402
+import operator  # noqa: E402
 from concurrent.futures import ThreadPoolExecutor  # noqa: E402
 
 # =========================================================================================================
@@ -718,8 +719,30 @@ def err_of(ex):
 
 
 class Skip(Exception):
-    def __init__(self, tag):
+    def __init__(self, tag, extra=""):
         self.tag = tag
+        self.extra = extra      # finding of the non-dyadic side run (Exec.nd_probe) made before the case was skipped
+
+
+# Non-dyadic side run (round five, late).  The op language and the Lean model live on integer-valued doubles, where every
+# operation is exact and `e / k` is only run when k divides e -- there `e / k` and `e * (1 / k)` round the same.  So every
+# arithmetic segment additionally runs the same bound operation on FRESH vectors holding non-dyadic images of the segment's
+# numbers (tenths, thirds, 0.3, 49, 103, ...) and compares every entry BIT FOR BIT (float.hex) with the entry-wise IEEE
+# result computed on Python floats (= C++ double arithmetic, one correctly rounded operation per entry).
+ND_ENT = (lambda e: e / 10.0, lambda e: e / 3.0, lambda e: e * 0.3, lambda e: float(e), lambda e: e + 1.0 / 3.0,
+          lambda e: e * 49.0, lambda e: e * 103.0 + 0.1, lambda e: e * 0.7, lambda e: e * 3.0)
+ND_SC = (lambda k: k * 10.0, lambda k: k / 10.0, lambda k: k / 3.0, lambda k: k * 49.0, lambda k: k + 0.3,
+         lambda k: k * 3.0, lambda k: k * 0.7, lambda k: k * 7.0, lambda k: float(k))
+ND_ISC = (lambda k: k * 10, lambda k: k * 49, lambda k: k * 3, lambda k: k, lambda k: k * 7)
+ND_OPS = {      # name -> (on the bound objects, on two Python floats, in place?)
+    "add": (lambda a, b: a + b, lambda p, q: p + q, False), "sub": (lambda a, b: a - b, lambda p, q: p - q, False),
+    "radd": (lambda a, b: b + a, lambda p, q: q + p, False), "rsub": (lambda a, b: b - a, lambda p, q: q - p, False),
+    "mul": (lambda a, b: a * b, lambda p, q: p * q, False), "rmul": (lambda a, b: b * a, lambda p, q: p * q, False),
+    "div": (lambda a, b: a / b, lambda p, q: p / q, False), "ldiv": (lambda a, b: a.__div__(b), lambda p, q: p / q, False),
+    "neg": (lambda a, b: -a, lambda p, q: p * -1.0, False),
+    "iadd": (operator.iadd, lambda p, q: p + q, True), "isub": (operator.isub, lambda p, q: p - q, True),
+    "imul": (operator.imul, lambda p, q: p * q, True), "idiv": (operator.itruediv, lambda p, q: p / q, True),
+}
 
 
 def ok_vals(vals):
@@ -887,10 +910,12 @@ class Exec:
         try:
             return f(tk)
         except Skip as s:
-            return (s.tag, s.tag)
+            if s.extra:
+                self.trivial = False
+            return (s.tag + s.extra, s.tag)
 
     # helper: evaluate `impl()` on the real code mapping exceptions to ERR:*, `exp()` on the shadow
-    def both(self, impl, exp):
+    def both(self, impl, exp, nd=""):
         try:
             e = exp()
         except Skip:
@@ -900,7 +925,53 @@ class Exec:
         except Exception as ex:  # noqa
             i = err_of(ex)
         self.trivial = False
-        return (i, e)
+        return (i + nd, e)
+
+    def nd_probe(self, op, A, B=None, k=None, isint=False, asfloat=False):
+        """non-dyadic side run of one arithmetic operation (see ND_ENT): `op` from ND_OPS, A the entries of the left vector,
+        B the entries of a vector / list operand (kind 'v' / 'l') or k the scalar (Python int if isint).  asfloat: the
+        bindings return a float (FieldVector<K,1> * int).  Returns "" or a marker naming the first entry that differs in
+        any bit from the IEEE result.  Works on fresh objects only."""
+        if not A or len(A) > 32:
+            return ""
+        bop, fop, inplace = ND_OPS[op]
+        if B is not None:
+            kind, B = B
+            if len(B) != len(A):
+                return ""
+        stat("nd_" + op)
+        salt = sum(A) * 7 + len(A) + (sum(B) if B is not None else (k or 0)) * 3
+        for j in range(4):
+            s = salt + 5 * j
+            fa = [ND_ENT[(s + i) % len(ND_ENT)](e) for i, e in enumerate(A)]
+            if B is not None:
+                fb = [ND_ENT[(s // 3 + 2 * i + 1) % len(ND_ENT)](e) for i, e in enumerate(B)]
+                want = [fop(p, q) for p, q in zip(fa, fb)]
+                shown = fb
+            else:
+                sc = 0 if k is None else ND_ISC[(s // 2) % len(ND_ISC)](k) if isint else ND_SC[(s // 2) % len(ND_SC)](k)
+                if op in ("div", "ldiv", "idiv") and sc == 0:
+                    continue
+                want = [fop(p, sc) for p in fa]
+                shown = sc
+            stat("nd_runs")
+            try:
+                a = self.T(fa)
+                b = (self.T(fb) if kind == "v" else list(fb)) if B is not None else sc
+                v = bop(a, b)
+                if inplace and v is not a:
+                    return " NONDYADIC(%s of %r and %r gave a new object)" % (op, fa, shown)
+                if asfloat and type(v) is float:     # a dot product: the sum starts from +0.0 (matters for -0.0 only)
+                    got, want = [v], [0.0 + w for w in want]
+                else:
+                    got = [float(v[i]) for i in range(len(v))]
+            except Exception as ex:  # noqa
+                return " NONDYADIC(%s of %r and %r raised %s)" % (op, fa, shown, err_of(ex))
+            if len(got) != len(want) or any(g.hex() != float(w).hex() for g, w in zip(got, want)):
+                stat("nd_mismatch")
+                return (" NONDYADIC(%s of %r and %r gave %r instead of the entry-wise IEEE result %r)"
+                        % (op, fa, shown, got, [float(w) for w in want])).replace(";", ",").replace("|", "/")
+        return ""
 
     def need(self, *conds):
         for c in conds:
@@ -1118,7 +1189,7 @@ class Exec:
         return self.both(impl, exp)
 
     # ------------------------------------------------------------------------------------------- arithmetic
-    def _binvv(self, tk, pyop, shop):
+    def _binvv(self, tk, pyop, shop, ndop):
         self.only("fv", "dyn")
         x, y, z = reg(tk[1], "x", NV), reg(tk[2], "x", NV), reg(tk[3], "x", NV)
         if len(tk) != 4:
@@ -1127,9 +1198,10 @@ class Exec:
         A, B = self.sh.x[y], self.sh.x[z]
         if len(A) != len(B):
             raise Skip("skip")
+        nd = self.nd_probe(ndop, A, ("v", B))
         R = [shop(p, q) for p, q in zip(A, B)]
         if not ok_vals(R):
-            raise Skip("skip")
+            raise Skip("skip", nd)
 
         def impl():
             v = pyop(self.x[y], self.x[z])
@@ -1139,13 +1211,13 @@ class Exec:
         def exp():
             self.sh.x[x] = R
             return fmt_list(R)
-        return self.both(impl, exp)
+        return self.both(impl, exp, nd)
 
     def op_add(self, tk):
-        return self._binvv(tk, lambda a, b: a + b, lambda p, q: p + q)
+        return self._binvv(tk, lambda a, b: a + b, lambda p, q: p + q, "add")
 
     def op_sub(self, tk):
-        return self._binvv(tk, lambda a, b: a - b, lambda p, q: p - q)
+        return self._binvv(tk, lambda a, b: a - b, lambda p, q: p - q, "sub")
 
     def operand_status(self, kind, reflected=False):
         """how the bindings treat an operand of Python kind `kind` standing for a vector:
@@ -1185,8 +1257,10 @@ class Exec:
             raise Skip("skip")
         B = self.sh.construct(L, kind)
         R = [shop(q, p) if listfirst else shop(p, q) for p, q in zip(A, B)]
+        # side run with a list of floats as the other operand (accepted on both sides by both vector classes)
+        nd = self.nd_probe(("r" if listfirst else "") + ("add" if shop(5, 3) == 8 else "sub"), A, ("l", B))
         if not ok_vals(R):
-            raise Skip("skip")
+            raise Skip("skip", nd)
 
         def impl():
             o = self.operand(kind, L)
@@ -1201,7 +1275,7 @@ class Exec:
                 return "ERR:Type"
             self.sh.x[x] = R
             return fmt_list(R)
-        return self.both(impl, exp)
+        return self.both(impl, exp, nd)
 
     def op_addl(self, tk):
         return self._binvl(tk, lambda a, b: a + b, lambda p, q: p + q, False)
@@ -1249,15 +1323,16 @@ class Exec:
         A = self.sh.x[y]
         if abs(k) > BOUND:
             raise Skip("skip")
+        asdot = isint and self.sh.sm() and which in ("mul", "rmul")
+        nd = self.nd_probe(which, A, None, None if which == "neg" else k, isint, asdot)
         if which in ("div", "ldiv"):
             if k == 0 or any(e % k for e in A):
-                raise Skip("skip")
+                raise Skip("skip", nd)
             R = [e // k for e in A]
         else:
             R = [e * k for e in A]
         if not ok_vals(R):
-            raise Skip("skip")
-        asdot = isint and self.sh.sm() and which in ("mul", "rmul")
+            raise Skip("skip", nd)
         kk = int(k) if isint else float(k)
 
         def impl():
@@ -1276,7 +1351,7 @@ class Exec:
                 return "f:" + str(R[0])
             self.sh.x[x] = R
             return fmt_list(R)
-        return self.both(impl, exp)
+        return self.both(impl, exp, nd)
 
     def op_mul(self, tk):
         return self._scal(tk, "mul")
@@ -1319,10 +1394,12 @@ class Exec:
         if abs(k) > BOUND:
             raise Skip("skip")
         sm = self.sh.sm()
+        nd = ""
         if sm:
+            nd = self.nd_probe({"addi": "add", "subi": "sub", "raddi": "radd", "rsubi": "rsub"}[which], A, None, k, not isfloat)
             R = [{"addi": A[0] + k, "subi": A[0] - k, "raddi": k + A[0], "rsubi": k - A[0]}[which]]
             if not ok_vals(R):
-                raise Skip("skip")
+                raise Skip("skip", nd)
         kk = float(k) if isfloat else int(k)
 
         def impl():
@@ -1345,7 +1422,7 @@ class Exec:
             else:
                 self.sh.x[x] = A          # the very same object
             return fmt_list(self.sh.x[x])
-        return self.both(impl, exp)
+        return self.both(impl, exp, nd)
 
     def op_addi(self, tk):
         return self._intscal(tk, "addi")
@@ -1409,6 +1486,12 @@ class Exec:
                 raise Skip("skip")
             B = [k] * len(A)
             rhs = ("s", int(k) if isint else float(k))
+        ndop = {"iadd": "iadd", "iaddl": "iadd", "iadds": "iadd", "isub": "isub", "isubl": "isub", "isubs": "isub",
+                "imuls": "imul", "idivs": "idiv"}[which]
+        if rhs[0] == "s":
+            nd = self.nd_probe(ndop, A, None, k, isint)
+        else:
+            nd = self.nd_probe(ndop, A, (rhs[0], B[:len(A)]))
         if which in ("iadd", "iaddl", "iadds"):
             R = [p + q for p, q in zip(A, B)]
         elif which in ("isub", "isubl", "isubs"):
@@ -1417,10 +1500,10 @@ class Exec:
             R = [p * q for p, q in zip(A, B)]
         else:
             if k == 0 or any(e % k for e in A):
-                raise Skip("skip")
+                raise Skip("skip", nd)
             R = [e // k for e in A]
         if not ok_vals(R):
-            raise Skip("skip")
+            raise Skip("skip", nd)
 
         def impl():
             o = self.x[x]
@@ -1442,7 +1525,7 @@ class Exec:
                 return "ERR:Type"
             A[:] = R          # in place: every alias and view sees it
             return fmt_list(A)
-        return self.both(impl, exp)
+        return self.both(impl, exp, nd)
 
     def op_iadd(self, tk):
         return self._inplace(tk, "iadd")
